@@ -6,4 +6,9 @@ EmitRun == (st.pc = "end") => PrintT(<<"SCN", ToJson(hist)>>)
 EmitIdle == (st.pc = "idle" /\ Len(hist) > 0) => PrintT(<<"SCN", ToJson(hist)>>)
 \* bound the length of Gen runs
 Short == Len(hist) <= 60
+\* ---- liveness: under a fair owner that keeps polling, a child that is owed a poll gets it (C01 / C13 as progress)
+Owner == (\E w \in 1..NW : PollBegin(w)) \/ ChildStep \/ UpStep
+FairSpec == Spec /\ WF_vars(Owner)
+Owed(c) == c \in DOMAIN m.ch /\ m.ch[c].st = "held" /\ m.ch[c].ob
+Progress == \A c \in Children : Owed(c) ~> ~Owed(c)
 =============================================================================
